@@ -2,17 +2,24 @@
 from lib import *  # noqa
 import ownrules
 import C14
+import dsarules
 
 TECHNIQUE = ("sibling-delegation table over the first/last/at families of the containers, claim/destroy destructor discipline, heap-ownership "
-             "typestate inside dsa/ and ares_buf.c, allocate-before-mutate ordering, exact-guard checks of the buffer tag adjustment")
+             "typestate inside dsa/ and ares_buf.c, allocate-before-mutate ordering, exact-guard checks of the buffer tag adjustment, "
+             "linear normal forms of the array's index expressions with dominating bound facts, def-use freshness of hash bucket indexes across "
+             "resizes, must-pass/avoidance of count updates per success return, paired link stores and comparator direction in the skip list, "
+             "sibling agreement of hash and equality callbacks")
 LEVEL_TEXT = ("static: decides only the shape-of-code clauses: every *_first/*_last/insertdata/typed wrapper delegates to the like-named primitive "
               "with the like-positioned index; node_destroy = claim + destructor while claim never runs the destructor; the containers neither leak "
-              "nor double-free on any path; growth routines allocate before they mutate; the buffer's tag is re-based whenever data is compacted. "
-              "Does NOT decide conformance to the abstract model under operation sequences (ordering, sortedness, offset arithmetic).")
+              "nor double-free on any path; growth routines allocate before they mutate; the buffer's tag is re-based whenever data is compacted; "
+              "array slots are addressed at (index + offset) and gaps are opened/closed by exactly one slot at the index; a hash bucket index is never "
+              "used across a resize, existing keys are replaced in place and keys are counted once; hash and equality callbacks of each typed table "
+              "identify keys alike; skip-list nodes are linked/unlinked from both sides on every level and scans follow the comparator's sign. "
+              "Does NOT decide conformance to the abstract model under operation sequences.")
 LEVEL_NOTE = "trusts clang CFG + extractor; conformance to the ADT model needs model-based execution and is outside this family"
 DESIGN_REF = "DESIGN.md §6/C19"
 EXPLANATION = LEVEL_TEXT
-NOT_DECIDED = "order preservation, sortedness, general index arithmetic, hash-table lookups across growth: need a reference-model search"
+NOT_DECIDED = "conformance to the ADT models under arbitrary operation sequences (needs a reference-model search); only the necessary structural conditions listed are decided"
 
 DSA = lambda f: f.file.startswith("src/lib/dsa/")
 
@@ -301,6 +308,11 @@ def run(prog, R, tier):
     r_reclaim(prog, R)
     r_links(prog, R)
     r_arrayoff(prog, R)
+    dsarules.r_arridx(prog, R)
+    dsarules.r_hashidx(prog, R)
+    dsarules.r_hcount(prog, R)
+    dsarules.r_hasheq(prog, R)
+    dsarules.r_slinks(prog, R)
     files = {f.file for f in prog.funcs.values() if DSA(f)} | {"src/lib/str/ares_buf.c"}
     ownrules.own_rule(prog, R, "R-C19-OWN", files, floor=20, include_contract=True)
     C14.r_prealloc(prog, R, rid="R-C19-PREALLOC")
